@@ -298,7 +298,7 @@ fn scenario(cfg: &Cfg, chooser: Chooser, faults: bool, crash_index: Option<usize
     // ever use the first admissible set - nobody crashes - so 16 candidate bits are plenty)
     let bits = candidates.len().min(16) as u32;
     for mask in 0u32..(1u32 << bits) {
-        let x: Vec<usize> = candidates.iter().enumerate().filter(|(i, _)| mask & (1 << i) != 0).map(|(_, j)| *j).collect();
+        let x: Vec<usize> = candidates.iter().enumerate().filter(|(i, _)| (*i as u32) < bits && mask & (1u32 << i) != 0).map(|(_, j)| *j).collect();
         let acker_left = ackers.iter().any(|a| *a != cfg.reader && !x.contains(a));
         let knows_live = net.addrs.iter().enumerate().any(|(j, a)| j != cfg.reader && !x.contains(&j) && Some(j) != pre_crashed && j < net.servers && reader_knows.contains(a));
         if acker_left && knows_live {
